@@ -89,11 +89,8 @@ fn check_input(src: &str, full: bool, wd: &Watchdog) -> (u64, bool, Vec<Violatio
                         Ok(text) => {
                             let again = wd.run(&text, || dl::parse(&text, false));
                             if let Err(e) = again {
-                                // known defect of the parser dependency: some truncated inputs are accepted without an error and
-                                // yield a tree with bogus tokens. Class: the input itself is not valid Luau for the reference parser.
-                                let finding = if parser::parse(src.as_bytes(), Mode::Luau).is_err() { Some("parser-accepts-invalid-truncated-input".to_owned()) } else { None };
                                 v.push(Violation {
-                                    finding,
+                                    finding: None,
                                     summary: format!("output of {} does not parse again ({})\n--- input  {:?}\n--- output {:?}", gen.name(), e, src, text),
                                     replay: json!({"kind": "reparse", "input": src, "generator": gen.name(), "output": text}),
                                 });
@@ -133,7 +130,27 @@ fn deviated_inputs(tier: Tier) -> Vec<String> {
             }
         }
     }
-    let mut out = Vec::new();
+    // constructs after which the parser dependency has been seen to stop reading without reporting an error
+    for extra in [
+        "local e = { f = 1 :: T }",
+        "function f(...: (number) -> ()) end",
+        "return function(...: number) end",
+        "function fn<T>(): T end",
+        "local i = `{a :: T}`",
+        "local y = f<<T>>()",
+        "type T = { x: number }",
+        "while x :: T do print(1) end",
+        "repeat until if a then b else c",
+        "x = {if a then 1 else 2}",
+        "f(if a then 1 else 2)",
+        "do return if a then b else c\nend print(1)",
+    ] {
+        files.push(extra.to_owned());
+    }
+    let mut out: Vec<String> = ["local t = { a = 1 ::\nlocal y = 2", "while x ::\ndo print(1) end", "do return if\nend print(1)", "while if a then 1 else\ndo print(1) end", "f(x ::)", "return 1 return launch()", "a - (b << -c)"]
+        .iter()
+        .map(|s| s.to_string())
+        .collect();
     for f in &files {
         let offsets: Vec<usize> = f.char_indices().map(|(i, _)| i).chain(std::iter::once(f.len())).collect();
         let big = f.len() > 400;
@@ -372,15 +389,85 @@ fn check_bundles(wd: &Watchdog) -> (u64, Vec<Violation>) {
             v
         })
         .collect();
-    (cases.len() as u64, results.into_iter().flatten().collect())
+    let mut all: Vec<Violation> = results.into_iter().flatten().collect();
+    // the name of the table of modules is free text in the configuration: whatever it is, the answer is a refusal or a bundle that parses
+    let mut n = cases.len() as u64;
+    for identifier in ["M", "_", "__DARKLUA_BUNDLE_MODULES", "end", "nil", "a b", "1x", "a.b", "", " ", "é", "a-b", "a\nb", "self", "type", "continue"] {
+        for generator in ["retain_lines", "dense", "readable"] {
+            n += 1;
+            let config = format!("{{generator: '{}', rules: [], bundle: {{require_mode: 'path', modules_identifier: {}}}}}", generator, serde_json::to_string(identifier).unwrap());
+            let files = [("src/main.lua", "local m = require('./m')\nreturn m\n"), ("src/m.lua", "return {}\n")];
+            let describe = || format!("bundling with configuration {}", config);
+            let replay = || json!({"kind": "bundle identifier", "config": config});
+            match wd.run(&config, || dl::process_memory(&files, &config, "src/main.lua", Some("out/main.lua"))) {
+                Err(e) => all.push(Violation { finding: None, summary: format!("{}\n--- {}", e, describe()), replay: replay() }),
+                Ok((res, errors)) => {
+                    if errors.is_empty() {
+                        match res.get("out/main.lua") {
+                            Err(_) => all.push(Violation { finding: None, summary: format!("no error and no output\n--- {}", describe()), replay: replay() }),
+                            Ok(text) => {
+                                let p1 = dl::parse(&text, false).err();
+                                let p2 = parser::parse(text.as_bytes(), Mode::Luau).err().map(|e| e.to_string());
+                                if p1.is_some() || p2.is_some() {
+                                    all.push(Violation { finding: None, summary: format!("the bundle does not parse again ({})\n--- {}\n--- output\n{}", p1.or(p2).unwrap_or_default(), describe(), text), replay: replay() });
+                                }
+                            }
+                        }
+                    }
+                }
+            }
+        }
+    }
+    (n, all)
 }
 
 pub const NEST_KINDS: &[&str] = &["parentheses", "tables", "unary", "functions", "do blocks", "calls", "if statements", "index"];
 /// nesting depth the check asserts (deeper nesting exhausts the native stack of the parser dependency and is outside the claim)
 pub const DOCUMENTED_DEPTH: usize = 64;
 
+/// constructs that are flat in the text (no nesting) but build a left-deep tree: one link per repetition
+pub const CHAIN_KINDS: &[&str] = &["call chain", "field chain", "index chain", "method chain", "binary chain", "concat chain", "statement list", "table entries", "elseif chain"];
+/// short chains of constants: every rule must finish on them within seconds (the evaluator must not redo the work of a
+/// sub-expression a number of times that doubles with every link)
+pub const SHORT_CHAIN_KINDS: &[&str] = &[
+    "constant sum", "constant concat", "constant and-or", "constant comparison", "constant unary", "constant if-expression", "constant parentheses", "and chain", "or chain", "not chain",
+    "constant power", "mixed arithmetic", "left concat", "interpolated nest", "table index chain", "unknown sum", "length chain", "elseif expression chain",
+];
+pub const SHORT_CHAIN_LENGTHS: &[usize] = &[8, 24, 48, 96, 200];
+pub const CHILD_TIME_LIMIT_S: u64 = 120;
+/// chain length the check asserts; longer chains are probed and a native stack overflow there is the known finding
+/// `long-flat-chain-overflows-the-native-stack`
+pub const DOCUMENTED_CHAIN: usize = 1024;
+
 pub fn nested_source(kind: &str, depth: usize) -> String {
     match kind {
+        "constant sum" => format!("return 1{}", "+1".repeat(depth)),
+        "and chain" => format!("return true{}", " and true".repeat(depth)),
+        "or chain" => format!("return false{}", " or nil".repeat(depth)),
+        "not chain" => format!("return {}true", "not ".repeat(depth)),
+        "constant power" => format!("return 1{}", "^1".repeat(depth)),
+        "mixed arithmetic" => format!("return 1{}", "*2-3/4%5".repeat(depth)),
+        "left concat" => format!("return {}'a'{}", "(".repeat(depth), "..'b')".repeat(depth)),
+        "interpolated nest" => format!("return {}1{}", "`{".repeat(depth), "}`".repeat(depth)),
+        "table index chain" => format!("return ({{}}){}", "[1]".repeat(depth)),
+        "unknown sum" => format!("return x{}", "+(1+1)".repeat(depth)),
+        "length chain" => format!("return {}'a'", "# ".repeat(depth)),
+        "elseif expression chain" => format!("return if a then 1 {}else 2", "elseif true then 1 ".repeat(depth)),
+        "constant concat" => format!("return 'a'{}", "..'b'".repeat(depth)),
+        "constant and-or" => format!("return 1{}", " and 2 or 3".repeat(depth)),
+        "constant comparison" => format!("return 1{}", "==1".repeat(depth)),
+        "constant unary" => format!("return {}1", "- ".repeat(depth)),
+        "constant if-expression" => format!("return {}1{}", "if true then ".repeat(depth), " else 2".repeat(depth)),
+        "constant parentheses" => format!("return {}1{}", "(1+".repeat(depth), ")".repeat(depth)),
+        "call chain" => format!("return f{}", "()".repeat(depth)),
+        "field chain" => format!("return a{}", ".b".repeat(depth)),
+        "index chain" => format!("return a{}", "[1]".repeat(depth)),
+        "method chain" => format!("return a{}", ":b()".repeat(depth)),
+        "binary chain" => format!("return 1{}", "+x".repeat(depth)),
+        "concat chain" => format!("return a{}", "..b".repeat(depth)),
+        "statement list" => "f() ".repeat(depth),
+        "table entries" => format!("return {{{}}}", "1,".repeat(depth)),
+        "elseif chain" => format!("if a then {}end", "elseif b then ".repeat(depth)),
         "parentheses" => format!("return {}1{}", "(".repeat(depth), ")".repeat(depth)),
         "tables" => format!("return {}{}", "{".repeat(depth), "}".repeat(depth)),
         "unary" => format!("return {}1", "- ".repeat(depth)),
@@ -393,24 +480,42 @@ pub fn nested_source(kind: &str, depth: usize) -> String {
     }
 }
 
-/// runs in a subprocess (`dlverif nest <kind> <depth>`): parse, apply the default rules, generate with the three generators
-pub fn nest_child(kind: &str, depth: usize) -> i32 {
+/// runs in a subprocess (`dlverif nest <kind> <depth> [all]`): parse, apply the default rules in sequence (or, with `all`,
+/// also every rule of ALL_RULES on its own from the parsed tree), generate with the three generators
+pub fn nest_child(kind: &str, depth: usize, all_rules: bool) -> i32 {
     let src = nested_source(kind, depth);
     let handle = std::thread::Builder::new().stack_size(8 << 20).spawn(move || -> Result<(), String> {
         for tokens in [false, true] {
-            let mut block = match guarded(|| darklua_core::Parser::default().parse(&src)) {
+            let parser = if tokens { darklua_core::Parser::default().preserve_tokens() } else { darklua_core::Parser::default() };
+            let parsed = match guarded(|| parser.parse(&src)) {
                 Ok(Ok(b)) => b,
                 Ok(Err(_)) => continue,
                 Err(p) => return Err(format!("PANIC {}", p)),
             };
-            let _ = tokens;
             let resources = darklua_core::Resources::from_memory();
+            let mut block = parsed.clone();
             for name in crate::dl::DEFAULT_RULE_NAMES {
                 let rule = dl::make_rule(&format!("'{}'", name));
                 dl::apply(rule.as_ref(), &mut block, &src, &resources, "src/test.lua").map_err(|e| e)?;
             }
             for gen in [Gen::Dense(80), Gen::Readable(80), Gen::Retain] {
                 dl::generate(&block, &src, gen)?;
+            }
+            if all_rules {
+                for json in ALL_RULES {
+                    let mut block = parsed.clone();
+                    let rule = dl::make_rule(json);
+                    // a rule may refuse the input with an error value; a panic is reported by `apply` as PANIC
+                    if let Err(e) = dl::apply(rule.as_ref(), &mut block, &src, &resources, "src/test.lua") {
+                        if e.contains("PANIC") {
+                            return Err(format!("{} in rule {}", e, json));
+                        }
+                        continue;
+                    }
+                    for gen in [Gen::Dense(80), Gen::Retain] {
+                        dl::generate(&block, &src, gen).map_err(|e| format!("{} after rule {}", e, json))?;
+                    }
+                }
             }
         }
         Ok(())
@@ -425,32 +530,100 @@ pub fn nest_child(kind: &str, depth: usize) -> i32 {
     }
 }
 
-fn check_nesting() -> (u64, serde_json::Value, Vec<Violation>) {
+/// runs `dlverif nest <kind> <n>` with a time limit: (exit code, or None when it had to be killed; its standard output)
+fn run_child(exe: &std::path::Path, kind: &str, n: usize, all_rules: bool) -> (Option<i32>, String) {
+    use std::io::Read;
+    let mut child = match std::process::Command::new(exe).args(["nest", kind, &n.to_string(), if all_rules { "all" } else { "default" }]).stdout(std::process::Stdio::piped()).stderr(std::process::Stdio::null()).spawn() {
+        Ok(c) => c,
+        Err(e) => return (Some(-1), format!("cannot start the child process: {}", e)),
+    };
+    let start = std::time::Instant::now();
+    loop {
+        match child.try_wait() {
+            Ok(Some(status)) => {
+                let mut out = String::new();
+                if let Some(mut o) = child.stdout.take() {
+                    let _ = o.read_to_string(&mut out);
+                }
+                // a signal (abort on stack overflow) has no code
+                return (Some(status.code().unwrap_or(134)), out);
+            }
+            Ok(None) => {
+                if start.elapsed().as_secs() >= CHILD_TIME_LIMIT_S {
+                    let _ = child.kill();
+                    let _ = child.wait();
+                    return (None, String::new());
+                }
+                std::thread::sleep(std::time::Duration::from_millis(20));
+            }
+            Err(e) => return (Some(-1), e.to_string()),
+        }
+    }
+}
+
+fn check_nesting(tier: Tier) -> (u64, serde_json::Value, Vec<Violation>) {
     let exe = std::env::current_exe().unwrap();
-    let mut v = Vec::new();
-    let mut observed = serde_json::Map::new();
-    let mut n = 0;
+    // (kind, lengths to try in order, asserted bound, every rule on its own too)
+    let mut plans: Vec<(&str, Vec<usize>, usize, bool)> = Vec::new();
     for kind in NEST_KINDS {
-        let mut largest_ok = 0;
-        for depth in [16usize, 64, 128, 256, 512, 1024] {
-            n += 1;
-            let out = std::process::Command::new(&exe).args(["nest", kind, &depth.to_string()]).output();
-            let ok = matches!(&out, Ok(o) if o.status.code() == Some(0));
-            if ok {
-                largest_ok = depth;
-            } else {
-                if depth <= DOCUMENTED_DEPTH {
-                    let detail = out.map(|o| format!("exit {:?} {}", o.status.code(), String::from_utf8_lossy(&o.stdout))).unwrap_or_default();
+        plans.push((kind, vec![16, 64, 128, 256, 512, 1024], DOCUMENTED_DEPTH, true));
+    }
+    for kind in SHORT_CHAIN_KINDS {
+        plans.push((kind, SHORT_CHAIN_LENGTHS.to_vec(), *SHORT_CHAIN_LENGTHS.last().unwrap(), true));
+    }
+    for kind in CHAIN_KINDS {
+        // compute_expression takes a time that grows with the cube of the length of an arithmetic chain (1024 terms: 2 s,
+        // 2048: 30 s): it completes, but longer chains are not probed
+        let lengths: Vec<usize> = if *kind == "binary chain" {
+            vec![64, 1024]
+        } else if tier == Tier::Quick {
+            vec![64, 1024, 16384]
+        } else {
+            vec![64, 1024, 4096, 16384, 131072]
+        };
+        plans.push((kind, lengths, DOCUMENTED_CHAIN, false));
+    }
+    let results: Vec<(String, usize, u64, Vec<Violation>)> = plans
+        .par_iter()
+        .map(|(kind, lengths, asserted, all_rules)| {
+            let mut v = Vec::new();
+            let mut largest_ok = 0;
+            let mut n = 0;
+            for length in lengths {
+                n += 1;
+                let (code, stdout) = run_child(&exe, kind, *length, *all_rules && *length <= 256);
+                if code == Some(0) {
+                    largest_ok = *length;
+                    continue;
+                }
+                let detail = if code.is_none() { format!("still running after {} s", CHILD_TIME_LIMIT_S) } else { format!("exit {:?} {}", code, stdout.trim()) };
+                // an error value (exit 3 with a message that is not a panic) is an answer; a crash or a hang is not
+                let failed = code != Some(3) || detail.contains("PANIC");
+                if failed && length <= asserted {
                     v.push(Violation {
                         finding: None,
-                        summary: format!("{} nested {} deep crash darklua ({}), below the documented depth {}", kind, depth, detail, DOCUMENTED_DEPTH),
-                        replay: json!({"kind": "nesting", "construct": kind, "depth": depth}),
+                        summary: format!("{} of size {} make darklua crash or hang ({}); sizes up to {} are asserted", kind, length, detail, asserted),
+                        replay: json!({"kind": "nesting", "construct": kind, "depth": length}),
+                    });
+                } else if failed && CHAIN_KINDS.contains(kind) {
+                    v.push(Violation {
+                        finding: if code == Some(134) { Some("long-flat-chain-overflows-the-native-stack".to_owned()) } else { None },
+                        summary: format!("a {} of {} links crashes darklua ({}); chains up to {} links are asserted", kind, length, detail, asserted),
+                        replay: json!({"kind": "nesting", "construct": kind, "depth": length}),
                     });
                 }
                 break;
             }
-        }
-        observed.insert(kind.to_string(), json!(largest_ok));
+            (kind.to_string(), largest_ok, n, v)
+        })
+        .collect();
+    let mut observed = serde_json::Map::new();
+    let mut v = Vec::new();
+    let mut n = 0;
+    for (kind, largest_ok, count, violations) in results {
+        observed.insert(kind, json!(largest_ok));
+        n += count;
+        v.extend(violations);
     }
     (n, serde_json::Value::Object(observed), v)
 }
@@ -512,7 +685,7 @@ pub fn run(tier: Tier) -> Report {
     report.set("bundle_cases", n);
     report.set("rule_chain_depth", tier.pick(2, 3) as u64);
     // (iv)
-    let (n, observed, v) = check_nesting();
+    let (n, observed, v) = check_nesting(tier);
     report.evaluations += n;
     report.violations.extend(v);
     report.set("largest_passing_nesting_depth", observed);
